@@ -799,6 +799,45 @@ def evaluate(chk, cases, stats):
     return results
 
 
+def sort_keeps_every_entry(chk, stats):
+    """--sort only orders the selection: every gathered, non-filtered entry is still considered exactly once, also when several
+    entries have EQUAL sort keys (sizes, extensions) and when a filter and its inversion are combined with the sort."""
+    import cli_driver
+    from sandbox import Sandbox
+    files = {"in/a.txt": "11", "in/b.txt": "22", "in/c.log": "33", "in/x.log": "4", "in/sub/y.log": "55", "in/sub/z.txt": "66", "in/.h.txt": "77"}
+    runs = [(["-s", "%Size()"], None), (["-r", "-s", "%Ext()"], None), (["-r", "-s", "%Ext(), %Size()", "-si"], None),
+            (["-fg", "*.txt", "-s", "%Size()"], "*.txt"), (["-fg", "*.txt", "-fi", "-s", "%Size()"], "!*.txt"), (["-r", "-ih", "-s", "1"], None)]
+    for opts, flt in runs:
+        with Sandbox("verif-c07-s") as root:
+            for rel, content in files.items():
+                os.makedirs(os.path.dirname(os.path.join(root, rel)), exist_ok=True)
+                with open(os.path.join(root, rel), "w") as fh:
+                    fh.write(content)
+            res = cli_driver.run_cli(opts + ["--", "seen_%Name()", os.path.join(root, "in")], root, root=root, snapshots=False, trace=False)
+            got = set()
+            for dp, _dn, fns in os.walk(root):
+                for fn in fns:
+                    if fn.startswith("seen_"):
+                        got.add(os.path.relpath(os.path.join(dp, fn[5:]), root))
+        exp = set()
+        for rel in files:
+            name = os.path.basename(rel)
+            if "/sub/" in rel and "-r" not in opts:
+                continue
+            if name.startswith(".") and "-ih" not in opts:
+                continue
+            if flt == "*.txt" and not name.endswith(".txt"):
+                continue
+            if flt == "!*.txt" and name.endswith(".txt"):
+                continue
+            exp.add(rel)
+        chk.count(("sort-keeps-entries", tuple(opts)))
+        stats["sort_keeps_entries_runs"] = stats.get("sort_keeps_entries_runs", 0) + 1
+        if res.status != 0 or got != exp:
+            chk.oracle_fail("with %r the entries considered are %r, designated are %r (status %s)" % (opts, sorted(got), sorted(exp), res.status),
+                            {"argv": opts + ["seen_%Name()", "<root>/in"], "files": sorted(files)})
+
+
 def run(chk):
     rng = chk.rng
     quick = chk.tier == "quick"
@@ -847,6 +886,9 @@ def run(chk):
     _ws = {}
     _whole.whole_stream(chk, _random.Random(chk.seed * 7919 + 7), 60 if chk.tier == "quick" else 2500, _ws)
     chk.notes["whole_program_tie"] = _ws
+    _sk = {}
+    sort_keeps_every_entry(chk, _sk)
+    chk.notes["sort_keeps_entries"] = _sk
     chk.coverage["rule"] = (
         "random sandboxes (1-3 input directories below a working directory, trees to relative depth 4, hidden files and "
         "directories at every level, symlinks to directories outside and inside the inputs (never cyclic), links to files, "
